@@ -54,8 +54,9 @@ from typing import Dict, List, Optional, Set, Tuple
 
 from ..cfg import Branch, atoms, cfg_of, origins
 from ..flow import bind_args
-from ..flowutil import attr_chain, callee, for_origin, is_fresh_set, must_pass, param_origin, within
-from ..index import AnalysisError, FuncNode, call_name, calls_in, const, enclosing_class, enclosing_function, kwarg, last_attr, norm, short, walk_local
+from ..flowutil import attr_chain, callee, for_origin, is_fresh_list, is_fresh_set, must_pass, param_origin, sole_expr_origin, within
+from ..idioms import component_origins, expanded
+from ..index import AnalysisError, FuncNode, arg_of, call_name, calls_in, const, enclosing_class, enclosing_function, kwarg, last_attr, norm, short, walk_local
 from ..pathcond import Not, Or, PathFacts, Var, show
 
 NOQA = "src/sqlfluff/core/rules/noqa.py"
@@ -148,6 +149,36 @@ def _is_none(e) -> bool:
     return isinstance(e, ast.Constant) and e.value is None
 
 
+def _name_truth(e, pol: bool) -> Optional[Tuple[ast.Name, bool]]:
+    """(local, truth value) that the fact (e, pol) states about a flag / counter / list local:
+    ``x``; ``x > 0`` / ``x >= 1`` / ``x != 0`` (truthy when true), ``x == 0`` / ``x < 1`` / ``x <= 0``
+    (falsy when true); the same comparisons on ``len(x)``.  Counters and lengths are never negative."""
+    if isinstance(e, ast.Name):
+        return e, pol
+    if isinstance(e, ast.Compare) and len(e.ops) == 1 and isinstance(e.comparators[0], ast.Constant):
+        left = e.left
+        if isinstance(left, ast.Call) and call_name(left) == "len" and len(left.args) == 1 and not left.keywords:
+            left = left.args[0]
+        c, op = e.comparators[0].value, e.ops[0]
+        if not isinstance(left, ast.Name) or not isinstance(c, int) or isinstance(c, bool):
+            return None
+        says = None
+        if (isinstance(op, ast.Gt) and c == 0) or (isinstance(op, ast.GtE) and c == 1) or (isinstance(op, ast.NotEq) and c == 0):
+            says = True
+        elif (isinstance(op, ast.Eq) and c == 0) or (isinstance(op, ast.Lt) and c == 1) or (isinstance(op, ast.LtE) and c == 0):
+            says = False
+        if says is None:
+            return None
+        return left, (says if pol else not says)
+    return None
+
+
+def _nonempty_name(e, pol: bool) -> Optional[ast.Name]:
+    """The local that the fact (e, pol) says is non-empty / non-zero."""
+    nt = _name_truth(e, pol)
+    return nt[0] if nt is not None and nt[1] else None
+
+
 def _loop_entry(cfg, loop):
     for n in cfg.succ.get(loop, ()):
         if isinstance(n, Branch) and n.stmt is loop and n.polarity:
@@ -233,9 +264,10 @@ class _Chain:
     """Backward walk of a "rolling filter": from a value to where it started, through plain
     names, identity comprehensions with filters, ``+=`` and calls of the mask matchers."""
 
-    def __init__(self, cfg, through: Tuple[str, ...]):
+    def __init__(self, cfg, through: Tuple[str, ...], first: str = "violations"):
         self.cfg = cfg
         self.through = through
+        self.first = first  # keyword name of the list argument of the ``through`` calls
         self.roots: List[ast.AST] = []
         self.calls: List[ast.Call] = []
         self.added: List[ast.AST] = []
@@ -254,6 +286,15 @@ class _Chain:
                 self._seen.add(id(d))
                 if d.kind == "param":
                     self.roots.append(d.node)
+                elif d.kind in ("assign", "walrus") and not d.path and is_fresh_list(d.value):
+                    # ``kept = []`` filled by ``for x in <list>: if ..: kept.append(x)``: an identity
+                    # filter of <list> spelled as a loop
+                    srcs = _append_loop_sources(self.cfg, e.id)
+                    if srcs is None:
+                        self.opaque.append(d.node)
+                    else:
+                        for loop in srcs:
+                            self.walk(loop.iter, loop)
                 elif d.kind in ("assign", "walrus") and not d.path:
                     self.walk(d.value, d.stmt)
                 elif d.kind == "aug":
@@ -265,14 +306,39 @@ class _Chain:
         if cv is not None and isinstance(cv[3], ast.Name) and cv[3].id == cv[1]:
             self.walk(cv[0], at)
             return
-        if isinstance(e, ast.Call) and last_attr(e) in self.through and e.args:
+        if isinstance(e, ast.Call) and last_attr(e) in self.through and arg_of(e, 0, self.first) is not None:
             self.calls.append(e)
-            self.walk(e.args[0], at)
+            self.walk(arg_of(e, 0, self.first), at)
             return
         if isinstance(e, ast.Call) and call_name(e) in ("list", "tuple") and len(e.args) == 1:
             self.walk(e.args[0], at)
             return
+        if isinstance(e, ast.Call) and call_name(e) == "filter" and len(e.args) == 2 and not e.keywords:
+            self.walk(e.args[1], at)  # filter(pred, xs): an identity filter of xs
+            return
         self.roots.append(e)
+
+
+def _append_loop_sources(cfg, name: str):
+    """The ``for`` loops that fill the list local ``name`` with their own loop variable
+    (``for x in L: .. name.append(x)``); None when the list is changed in any other way."""
+    loops = []
+    for n in walk_local(cfg.func):
+        if isinstance(n, ast.Call) and isinstance(n.func, ast.Attribute) and isinstance(n.func.value, ast.Name) and n.func.value.id == name:
+            if n.func.attr in ("copy", "count", "index"):
+                continue
+            if n.func.attr != "append" or len(n.args) != 1 or n.keywords:
+                return None
+            st = cfg.stmt_of(n)
+            fo = for_origin(cfg, n.args[0], st)
+            if fo is None or fo[1] or not isinstance(fo[0], ast.For) or enclosing_loop(st) is not fo[0]:
+                return None
+            loops.append(fo[0])
+        elif isinstance(n, (ast.Assign, ast.AugAssign, ast.Delete)):
+            tg = n.targets if isinstance(n, (ast.Assign, ast.Delete)) else [n.target]
+            if any(isinstance(t_, ast.Subscript) and isinstance(t_.value, ast.Name) and t_.value.id == name for t_ in tg):
+                return None
+    return loops or None
 
 
 # ---------------------------------------------------------------------------
@@ -359,7 +425,7 @@ def _r20a(chk, repo, mask_cls, sites) -> Dict[int, bool]:
     chk.floor("R20a.lint_fix_parsed_returns", 1)
     for r in rets:
         e = r.value.elts[2]
-        os_ = origins(lcfg, e, r) if isinstance(e, ast.Name) else None
+        os_ = component_origins(lcfg, e, r) if isinstance(e, (ast.Name, ast.Subscript)) else None
         good = (os_ is not None and bool(os_) and all(mask_origin_ok(o) for o in os_)) or _is_none(e)
         chk.require(good, "R20a", r, "the mask returned by lint_fix_parsed is not (None | the mask built under the disable_noqa gate)", detail="lint_fix_parsed returns gated mask or None")
 
@@ -385,7 +451,7 @@ def _r20a(chk, repo, mask_cls, sites) -> Dict[int, bool]:
         if _is_none(v):
             chk.ok("R20a", f"{call._module.relpath}::{getattr(fn, '_qualname', fn.name)}", "LintedFile(ignore_mask=None)")
             continue
-        os_ = origins(cfg, v, cfg.stmt_of(call)) if isinstance(v, ast.Name) else []
+        os_ = component_origins(cfg, v, cfg.stmt_of(call)) if isinstance(v, (ast.Name, ast.Subscript)) else []
         good = bool(os_) and all(mask_origin_ok(o, extra_calls=(("lint_fix_parsed", (2,)),)) for o in os_)
         chk.require(
             good, "R20a", call,
@@ -482,10 +548,15 @@ def _r20b(chk, repo, mask_cls, sites) -> None:
     for c in calls:
         b = bind_args(c, pn, bound=False)
         ln = b.get("line_no")
-        os_ = origins(cfg, ln, cfg.stmt_of(c)) if isinstance(ln, ast.Name) else []
+        os_ = component_origins(cfg, ln, cfg.stmt_of(c)) if isinstance(ln, (ast.Name, ast.Subscript)) else []
+
+        def _recv_chain(o):
+            # receiver of <x>.source_position(), a marker kept in a local looked through
+            return attr_chain(expanded(cfg, o.expr.func.value, o.stmt)) or ("",)
+
         good = bool(os_) and all(
-            o.kind == "expr" and o.path == (0,) and isinstance(o.expr, ast.Call) and last_attr(o.expr) == "source_position"
-            and (attr_chain(o.expr.func.value) or ("",))[0] == (cparam[0] if cparam else None) and "pos_marker" in (attr_chain(o.expr.func.value) or ())
+            o.kind == "expr" and tuple(o.path) == (0,) and isinstance(o.expr, ast.Call) and last_attr(o.expr) == "source_position" and isinstance(o.expr.func, ast.Attribute)
+            and _recv_chain(o)[0] == (cparam[0] if cparam else None) and "pos_marker" in _recv_chain(o)
             for o in os_
         )
         chk.require(
@@ -504,6 +575,7 @@ def _r20b(chk, repo, mask_cls, sites) -> None:
         it = l.iter
         if isinstance(it, ast.Call) and call_name(it) == "enumerate" and it.args:
             it = it.args[0]
+        it = expanded(cfg, it, l)  # ``lines = source.split(..)`` kept in a local
         good = isinstance(it, ast.Call) and isinstance(it.func, ast.Attribute) and param_origin(cfg, it.func.value, l) == (sparam[0] if sparam else None) \
             and ((last_attr(it) == "split" and it.args and const(it.args[0]) == "\n") or (last_attr(it) == "splitlines" and not it.args))
         chk.require(good, "R20b", l, "from_source does not walk the lines of its own source argument", detail="from_source walks the lines of its source argument")
@@ -623,9 +695,21 @@ def _r20c(chk, repo, mask_cls) -> None:
     chk.require(len(wviews) == 1, "R20c", gw, "generate_warnings_for_unused is not a single filtered walk of the directive list producing SQLUnusedNoQaWarning", detail="one walk of the directive list")
     for w in wviews:
         v = w.var
-        good_it = global_list is not None and self_list(gcfg, w.it, gcfg.stmt_of(w.node)) == global_list
-        conds = w.conds
-        good_c = len(conds) == 1 and conds[0][1] is False and isinstance(conds[0][0], ast.Attribute) and conds[0][0].attr == "used" and isinstance(conds[0][0].value, ast.Name) and conds[0][0].value.id == v
+        # the walked list may itself be an identity filter of the directive list kept in a local
+        # (``unused = [d for d in self._ignore_list if not d.used]``): its filters count as well
+        w_it, w_at = w.it, gcfg.stmt_of(w.node)
+        staged = []  # (normalised condition with the loop variable as $, polarity, expression)
+        for _ in range(3):
+            src = sole_expr_origin(gcfg, w_it, w_at) if isinstance(w_it, ast.Name) else None
+            cv = _comp_view(src) if src is not None else None
+            if cv is None or not (isinstance(cv[3], ast.Name) and cv[3].id == cv[1]):
+                break
+            staged += [(_subst(e, cv[1]), p, e) for e, p in cv[2]]
+            w_it, w_at = cv[0], gcfg.stmt_of(src)
+        good_it = global_list is not None and self_list(gcfg, w_it, w_at) == global_list
+        conds = [(e, p) for _, p, e in staged] + list(w.conds)
+        normed = [(s, p) for s, p, _ in staged] + [(_subst(e, v), p) for e, p in w.conds]
+        good_c = len(normed) == 1 and normed[0] == ("$.used", False)
         chk.require(good_it, "R20c", w.node, "unused warnings are generated from another list than the one ignore_masked_violations consults", detail="warnings walk the consulted list")
         chk.require(good_c, "R20c", w.node, "an unused warning is not emitted exactly for 'not <directive>.used' (filter: " + (" and ".join(("" if p else "not ") + short(e, 30) for e, p in conds) or "none") + ")", detail="warning iff not used")
         lines = [x for x in ast.walk(w.elt) if isinstance(x, ast.Attribute) and x.attr == "line_no" and isinstance(x.value, ast.Name) and x.value.id == v]
@@ -652,15 +736,23 @@ def _r20c(chk, repo, mask_cls) -> None:
             detail="single-line: filtered return marks the directive",
         )
     chk.require(n_filtered >= 1, "R20c", sl, "the single-line matcher never returns a filtered list", detail="single-line: filters")
+    sl_views = _views(sl, cfg)
     for s in stores:
         conds = cfg.conditions(s)
         good = False
         for e, pol in conds:
-            if pol and isinstance(e, ast.Name):
-                for o in origins(cfg, e, s):
+            ne = _nonempty_name(e, pol)
+            if ne is not None:
+                for o in origins(cfg, ne, cfg.stmt_of(e) or s):
                     cv = _comp_view(o.expr) if o.kind == "expr" else None
                     if cv is not None and vparam and param_origin(cfg, cv[0], o.stmt) == vparam[0] and cv[2]:
                         good = True
+                    elif o.kind == "expr" and is_fresh_list(o.expr) and _append_loop_sources(cfg, ne.id):
+                        # the matches collected by a loop: every append is a filtered walk of the argument
+                        vs = [w for w in sl_views if w.sink == ne.id]
+                        if vs and all(isinstance(w.node, ast.Call) and isinstance(w.elt, ast.Name) and w.elt.id == w.var and w.conds and vparam and param_origin(cfg, w.it, cfg.stmt_of(w.node)) == vparam[0] for w in vs) \
+                                and len(vs) == len(_append_loop_sources(cfg, ne.id)):
+                            good = True
         chk.require(good, "R20c", s, "self.used is set without a dominating test that some violation of the argument matched this directive", detail="single-line: marked only when something matched")
 
     # ---- marking: range -------------------------------------------------------
@@ -681,10 +773,11 @@ def _r20c(chk, repo, mask_cls) -> None:
         keep = cfg.stmt_of(keeps[0])
 
         def decision(e, at, idx):
-            if not isinstance(e, ast.Name):
+            # component ``idx`` of the range decision: unpacked (``ignore, last = ..``) or indexed (``verdict[0]``)
+            if not isinstance(e, (ast.Name, ast.Subscript)):
                 return None
-            os_ = origins(cfg, e, at)
-            if os_ and all(o.kind == "expr" and isinstance(o.expr, ast.Call) and last_attr(o.expr) == "_should_ignore_violation_line_range" and o.path == (idx,) for o in os_):
+            os_ = component_origins(cfg, e, at)
+            if os_ and all(o.kind == "expr" and isinstance(o.expr, ast.Call) and last_attr(o.expr) == "_should_ignore_violation_line_range" and tuple(o.path) == (idx,) for o in os_):
                 return os_[0].expr
             return None
 
@@ -721,8 +814,13 @@ def _r20c(chk, repo, mask_cls) -> None:
         )
         dcalls = [c for c in calls_in(l) if last_attr(c) == "_should_ignore_violation_line_range"]
         for c in dcalls:
-            a0 = c.args[0] if c.args else None
-            good = isinstance(a0, ast.Attribute) and a0.attr == "line_no" and for_origin(cfg, a0.value, cfg.stmt_of(c)) == (l, ())
+            a0 = arg_of(c, 0, "line_no")
+            a_at = cfg.stmt_of(c)
+            if isinstance(a0, ast.Name):
+                os_ = origins(cfg, a0, a_at)
+                if len(os_) == 1 and os_[0].kind == "expr" and not os_[0].path:
+                    a0, a_at = os_[0].expr, os_[0].stmt
+            good = isinstance(a0, ast.Attribute) and a0.attr == "line_no" and for_origin(cfg, a0.value, a_at) == (l, ())
             chk.require(good, "R20c", c, "the range decision is not asked for the line of the iterated violation", detail="range: decision for the violation's line")
 
     # ---- who writes .used ---------------------------------------------------------
@@ -778,14 +876,14 @@ def _r20d_e(chk, repo) -> None:
             if o.kind == "expr" and _is_none(o.expr):
                 none_encoding += 1
                 continue
-            names = [x for x in ast.walk(o.expr) if isinstance(x, ast.Name) and isinstance(x.ctx, ast.Load)] if o.kind == "expr" else []
-            wrappers = [call_name(x) for x in ast.walk(o.expr) if isinstance(x, ast.Call)] if o.kind == "expr" else []
-            cand = [x for x in names if x.id not in ("tuple", "sorted", "list", "frozenset", "set")]
-            good = o.kind == "expr" and len(cand) == 1 and all(w in ("tuple", "sorted", "list", "frozenset") for w in wrappers)
+            ws = _wrapped_set_name(cfg, o.expr, o.stmt) if o.kind == "expr" and not o.path else None
+            good = ws is not None
+            cand = [ws[0]] if good else []
             fresh = False
             if good:
-                so = origins(cfg, cand[0], o.stmt)
-                base = [x for x in so if x.kind != "aug"]
+                so = origins(cfg, ws[0], ws[1])
+                # ``s |= x`` and ``s = s | x`` both keep what the set held
+                base = [x for x in so if x.kind != "aug" and not (x.kind == "expr" and _self_union(x.expr, ws[0].id) is not None)]
                 fresh = bool(base) and all(x.kind == "expr" and is_fresh_set(x.expr) for x in base)
             chk.require(
                 good and fresh, "R20d", c,
@@ -811,6 +909,10 @@ def _r20d_e(chk, repo) -> None:
                     others.append(n)
             elif isinstance(n, ast.AugAssign) and isinstance(n.target, ast.Name) and n.target.id == sname:
                 (updates if isinstance(n.op, ast.BitOr) else others).append(n)
+            elif isinstance(n, ast.Assign) and len(n.targets) == 1 and isinstance(n.targets[0], ast.Name) and n.targets[0].id == sname and isinstance(n.value, ast.BinOp) \
+                    and any(isinstance(x, ast.Name) and x.id == sname for x in (n.value.left, n.value.right)):
+                # ``s = s | x`` grows the set like ``s |= x``; ``s = s - x`` / ``s = s & x`` shrink it
+                (updates if _self_union(n.value, sname) is not None else others).append(n)
         for n in others:
             chk.fail("R20d", n, "references are removed from the expanded rule set again", detail=f"expanded set shrinks: {short(n, 50)}")
         loops = [l for l in walk_local(pn) if isinstance(l, ast.For) and any(within(a, l.body) for a in adds)]
@@ -842,8 +944,9 @@ def _r20d_e(chk, repo) -> None:
             flag = None
             extra = []
             for e, p in conds:
-                if (not p) and isinstance(e, ast.Name) and flag is None:
-                    flag = e
+                nt = _name_truth(e, p)
+                if nt is not None and nt[1] is False and flag is None:
+                    flag = nt[0]  # ``not matched`` / ``n_matches == 0`` / ``not keys``
                 elif p and _covers_special_codes(cfg, e, loop):
                     continue  # an allow-list that contains every special code keeps them matchable
                 else:
@@ -862,14 +965,16 @@ def _r20d_e(chk, repo) -> None:
             ok_flag = bool(ds)
             why = ""
             for d in ds:
-                if d.kind != "assign" or d.path or not within(d.stmt, loop.body):
+                counted = d.kind == "aug" and isinstance(d.stmt, ast.AugAssign) and isinstance(d.stmt.op, ast.Add) and isinstance(d.value, ast.Constant) \
+                    and isinstance(d.value.value, int) and not isinstance(d.value.value, bool) and d.value.value > 0
+                if (d.kind != "assign" and not counted) or d.path or not within(d.stmt, loop.body):
                     ok_flag, why = False, f"'{flag.id}' may carry a value from outside the current reference's iteration"
                     break
                 val = d.value
                 cv = const(val)
-                if isinstance(val, ast.Constant) and cv is False:
-                    continue
-                if isinstance(val, ast.Constant) and cv is True:
+                if not counted and isinstance(val, ast.Constant) and (cv is False or (isinstance(cv, int) and cv == 0)):
+                    continue  # reset: False / 0
+                if counted or (isinstance(val, ast.Constant) and (cv is True or (isinstance(cv, int) and not isinstance(cv, bool) and cv > 0))):
                     sibs = getattr(d.stmt, "_parent", None)
                     body = None
                     for fld in ("body", "orelse"):
@@ -878,7 +983,7 @@ def _r20d_e(chk, repo) -> None:
                     grows = [u for u in updates if body is not None and u in body]
                     from_map = False
                     for u in grows:
-                        rhs = u.value if isinstance(u, ast.AugAssign) else (u.value.args[0] if isinstance(u, ast.Expr) and isinstance(u.value, ast.Call) and u.value.args else None)
+                        rhs = u.value if isinstance(u, ast.AugAssign) else (_self_union(u.value, sname) if isinstance(u, ast.Assign) else (u.value.args[0] if isinstance(u, ast.Expr) and isinstance(u.value, ast.Call) and u.value.args else None))
                         srcs = [o.expr for o in origins(cfg, rhs, u)] if isinstance(rhs, ast.Name) else [rhs]
                         if rhs is not None and any(_reads_param(cfg, s, u, mparam) for s in srcs if isinstance(s, ast.AST)) or (isinstance(rhs, ast.Name) and _loop_over_param(cfg, rhs, u, mparam)):
                             from_map = True
@@ -886,7 +991,28 @@ def _r20d_e(chk, repo) -> None:
                         ok_flag, why = False, f"'{flag.id}' is raised at line {d.stmt.lineno} without adding a value of the reference map to the rule set in the same block"
                         break
                     continue
-                # emptiness idiom: flag = bool(matches) etc. is not accepted silently
+                # emptiness idiom: ``keys = <matches>`` tested by ``not keys`` -- accepted when whatever is in it
+                # is expanded: every path of the iteration from the binding passes a loop over that very list
+                # whose body adds <map>[<its variable>] to the rule set, or a test that found the list empty
+                kls = []
+                for kl in walk_local(loop):
+                    if isinstance(kl, ast.For) and isinstance(kl.iter, ast.Name) and kl.iter.id == flag.id and cfg.reaching().defs_at(kl, flag.id) == {d}:
+                        for u in updates:
+                            if u not in kl.body:
+                                continue
+                            rhs = u.value if isinstance(u, ast.AugAssign) else (_self_union(u.value, sname) if isinstance(u, ast.Assign) else (u.value.args[0] if isinstance(u, ast.Expr) and isinstance(u.value, ast.Call) and u.value.args else None))
+                            if isinstance(rhs, ast.Subscript) and _reads_param(cfg, rhs, u, mparam) and for_origin(cfg, rhs.slice, u) == (kl, ()):
+                                kls.append(kl)
+
+                def expands_or_empty(n, kls=kls, fl=flag.id):
+                    if any(n is kl for kl in kls):
+                        return True
+                    if isinstance(n, Branch) and isinstance(n.stmt, (ast.If, ast.While)):
+                        return _known_on_edge(n.stmt.test, n.polarity, lambda e, pol: (_name_truth(e, pol) or (None, None))[1] is False and _name_truth(e, pol)[0].id == fl)
+                    return False
+
+                if kls and not cfg.paths_avoiding(d.stmt, loop, expands_or_empty):
+                    continue
                 ok_flag, why = False, f"'{flag.id}' is assigned {short(val, 40)}"
                 break
             chk.require(
@@ -901,7 +1027,7 @@ def _r20d_e(chk, repo) -> None:
                 if isinstance(n, Branch) and isinstance(n.stmt, (ast.If, ast.While)):
                     return _known_on_edge(
                         n.stmt.test, n.polarity,
-                        lambda e, pol: (pol and isinstance(e, ast.Name) and e.id == fl) or ((not pol) and _covers_special_codes(cfg, e, lp)),
+                        lambda e, pol: ((_name_truth(e, pol) or (None, None))[1] is True and _name_truth(e, pol)[0].id == fl) or ((not pol) and _covers_special_codes(cfg, e, lp)),
                     )
                 return False
 
@@ -910,7 +1036,9 @@ def _r20d_e(chk, repo) -> None:
                 "an iteration over the references can end without adding the raw reference although no match was recorded",
                 detail="no reference falls through",
             )
-            early = [n for n in walk_local(loop) if isinstance(n, (ast.Break, ast.Return, ast.Continue))]
+            # a ``continue`` of the reference loop itself only ends this reference's iteration: whether it may
+            # is decided by "no reference falls through" above; inside the key loop it skips a matching key
+            early = [n for n in walk_local(loop) if isinstance(n, (ast.Break, ast.Return)) or (isinstance(n, ast.Continue) and enclosing_loop(n) is not loop)]
             for n in early:
                 inner = enclosing_loop(n) is not loop
                 chk.fail(
@@ -922,12 +1050,25 @@ def _r20d_e(chk, repo) -> None:
 
     # ---- membership key ---------------------------------------------------------
     n_mem = 0
+    rules_attrs, rules_aliases = _rules_reads(nm)
+    alias_ids = {id(x) for x in rules_aliases}
     for node in ast.walk(nm.tree):
         if isinstance(node, ast.Compare) and len(node.ops) == 1 and isinstance(node.ops[0], (ast.In, ast.NotIn)):
             r = node.comparators[0]
-            if isinstance(r, ast.Attribute) and r.attr == "rules":
+            if (isinstance(r, ast.Attribute) and r.attr == "rules") or id(r) in alias_ids:
                 n_mem += 1
                 l = node.left
+                if isinstance(l, ast.Name):
+                    # ``code = v.rule_code()`` evaluated once and tested against several directives
+                    mf = enclosing_function(node)
+                    while mf is not None and not hasattr(mf, "_qualname"):
+                        mf = enclosing_function(mf)
+                    if mf is not None:
+                        mcfg = cfg_of(mf)
+                        mst = mcfg.stmt_of(node)
+                        src = sole_expr_origin(mcfg, l, mst) if mst is not None else None
+                        if src is not None:
+                            l = src
                 good = isinstance(l, ast.Call) and last_attr(l) == "rule_code" and not l.args and isinstance(l.func, ast.Attribute)
                 chk.require(
                     good, "R20d", node,
@@ -956,9 +1097,7 @@ def _r20d_e(chk, repo) -> None:
                 guarded = False
     chk.note("R20e: _parse_noqa " + ("guards every rule list against being empty" if guarded else "can produce an empty rule list (a reference may expand to an empty set of the allowed map)"))
     n_reads = 0
-    for node in ast.walk(nm.tree):
-        if not (isinstance(node, ast.Attribute) and node.attr == "rules" and isinstance(node.ctx, ast.Load)):
-            continue
+    for node in rules_attrs + rules_aliases:  # a local that holds only <directive>.rules is read like the attribute
         n_reads += 1
         p = getattr(node, "_parent", None)
         kind = "value"
@@ -990,6 +1129,59 @@ def _r20d_e(chk, repo) -> None:
             chk.ok("R20e", f"{NOQA}::{_enclosing_name(node)}", f"{kind}: {short(p, 50)}")
     chk.count("R20e.rules_reads", n_reads)
     chk.floor("R20e.rules_reads", 3)
+
+
+def _rules_reads(nm):
+    """(attribute loads of ``.rules``, loads of a local that can only hold such an attribute) in noqa.py."""
+    attrs = [n for n in ast.walk(nm.tree) if isinstance(n, ast.Attribute) and n.attr == "rules" and isinstance(n.ctx, ast.Load)]
+    aliases = []
+    for _q, f in nm.functions():
+        cands = set()
+        for s in walk_local(f):
+            if isinstance(s, (ast.Assign, ast.AnnAssign)) and isinstance(s.value, ast.Attribute) and s.value.attr == "rules":
+                for t_ in (s.targets if isinstance(s, ast.Assign) else [s.target]):
+                    if isinstance(t_, ast.Name):
+                        cands.add(t_.id)
+        if not cands:
+            continue
+        fcfg = cfg_of(f)
+        for n in walk_local(f):
+            if isinstance(n, ast.Name) and isinstance(n.ctx, ast.Load) and n.id in cands:
+                st = fcfg.stmt_of(n)
+                os_ = origins(fcfg, n, st) if st is not None else []
+                if os_ and all(o.kind == "expr" and not o.path and isinstance(o.expr, ast.Attribute) and o.expr.attr == "rules" for o in os_):
+                    aliases.append(n)
+    return attrs, aliases
+
+
+_SET_WRAPPERS = ("tuple", "sorted", "list", "frozenset")
+
+
+def _wrapped_set_name(cfg, e, at, depth: int = 0):
+    """(name node of the set, statement) behind ``tuple(sorted(<set>))``; an intermediate result kept
+    in a local (``in_order = sorted(<set>)``) is looked through.  None for anything else."""
+    def is_wrapper(x):
+        return isinstance(x, ast.Call) and isinstance(x.func, ast.Name) and x.func.id in _SET_WRAPPERS and len(x.args) == 1 and not isinstance(x.args[0], ast.Starred) \
+            and all(k.arg is not None and isinstance(k.value, ast.Constant) for k in x.keywords)
+
+    while is_wrapper(e):
+        e = e.args[0]
+    if not isinstance(e, ast.Name):
+        return None
+    os_ = origins(cfg, e, at)
+    if depth < 4 and len(os_) == 1 and os_[0].kind == "expr" and not os_[0].path and is_wrapper(os_[0].expr):
+        return _wrapped_set_name(cfg, os_[0].expr, os_[0].stmt, depth + 1)
+    return e, at
+
+
+def _self_union(e, name: str):
+    """The added operand of ``<name> | x`` / ``x | <name>``; None for anything else."""
+    if isinstance(e, ast.BinOp) and isinstance(e.op, ast.BitOr):
+        if isinstance(e.left, ast.Name) and e.left.id == name:
+            return e.right
+        if isinstance(e.right, ast.Name) and e.right.id == name:
+            return e.left
+    return None
 
 
 def _known_on_edge(test, polarity, accepted) -> bool:
@@ -1086,9 +1278,10 @@ def _r20f(chk, repo) -> None:
         """follow plain aliases (a = b) to the underlying binding"""
         seen = set()
         cur, where = name, at
-        while cur not in seen:
-            seen.add(cur)
-            ds = cfg.reaching().defs_at(where, cur)
+        while (cur, id(where)) not in seen:
+            seen.add((cur, id(where)))
+            # ``m |= {..}`` updates the object in place: it is still the binding that was there before
+            ds = {d for d in cfg.reaching().defs_at(where, cur) if not (getattr(d, "kind", "") == "aug" and isinstance(d.stmt, ast.AugAssign) and isinstance(d.stmt.op, ast.BitOr))}
             if len(ds) == 1:
                 d = next(iter(ds))
                 if getattr(d, "kind", "") == "assign" and isinstance(d.value, ast.Name) and not d.path:
@@ -1103,6 +1296,10 @@ def _r20f(chk, repo) -> None:
             for t in st.targets:
                 if isinstance(t, ast.Subscript) and isinstance(t.value, ast.Name):
                     stores.append((st, t.value.id))
+        elif isinstance(st, ast.Expr) and isinstance(st.value, ast.Call) and isinstance(st.value.func, ast.Attribute) and st.value.func.attr in ("update", "setdefault") and isinstance(st.value.func.value, ast.Name):
+            stores.append((st, st.value.func.value.id))  # ``m.update({..})``: the same store spelled as one call
+        elif isinstance(st, ast.AugAssign) and isinstance(st.op, ast.BitOr) and isinstance(st.target, ast.Name):
+            stores.append((st, st.target.id))  # ``m |= {..}``
     chk.count("R20f.special_code_stores", len(stores))
     if not stores:
         raise AnalysisError("R20f: allowed_rule_ref_map no longer stores the special codes into a map (rewritten; re-read it)")
@@ -1210,6 +1407,359 @@ VARIANTS: List[Variant] = [
         "        return [\n            SQLUnusedNoQaWarning(\n                line_no=ignore.line_no,\n                line_pos=ignore.line_pos,\n                description=f\"Unused noqa: {ignore.raw_str!r}\",\n            )\n            for ignore in self._ignore_list\n            if not ignore.used\n        ]\n",
         "        warnings: list[SQLBaseError] = []\n        for directive in self._ignore_list:\n            if directive.used:\n                continue\n            warnings.append(\n                SQLUnusedNoQaWarning(\n                    line_no=directive.line_no,\n                    line_pos=directive.line_pos,\n                    description=f\"Unused noqa: {directive.raw_str!r}\",\n                )\n            )\n        return warnings\n",
         "QUIET", None, "comprehension rewritten as a loop with an early continue",
+    ),
+    # behaviour-preserving refactors: must stay quiet
+    Variant(
+        "quiet-gate-arms-swapped-in-lint-fix-parsed", LINTER,
+        "        if not config.get(\"disable_noqa\") or disable_noqa_except:\n            allowed_rules_ref_map = cls.allowed_rule_ref_map(\n                rule_pack.reference_map, disable_noqa_except\n            )\n            ignore_mask, ivs = IgnoreMask.from_tree(tree, allowed_rules_ref_map)\n            initial_linting_errors += ivs\n        else:\n            ignore_mask = None\n",
+        "        if config.get(\"disable_noqa\") and not disable_noqa_except:\n            ignore_mask = None\n        else:\n            allowed_rules_ref_map = cls.allowed_rule_ref_map(\n                rule_pack.reference_map, disable_noqa_except\n            )\n            ignore_mask, ivs = IgnoreMask.from_tree(tree, allowed_rules_ref_map)\n            initial_linting_errors += ivs\n",
+        "QUIET", None, "De Morgan on the gate, arms swapped (the spelling lint_parsed uses)",
+    ),
+    Variant(
+        "quiet-mask-defaults-to-none-before-the-gate", LINTER,
+        "        if not config.get(\"disable_noqa\") or disable_noqa_except:\n            allowed_rules_ref_map = cls.allowed_rule_ref_map(\n                rule_pack.reference_map, disable_noqa_except\n            )\n            ignore_mask, ivs = IgnoreMask.from_tree(tree, allowed_rules_ref_map)\n            initial_linting_errors += ivs\n        else:\n            ignore_mask = None\n",
+        "        ignore_mask = None\n        if not config.get(\"disable_noqa\") or disable_noqa_except:\n            allowed_rules_ref_map = cls.allowed_rule_ref_map(\n                rule_pack.reference_map, disable_noqa_except\n            )\n            ignore_mask, ivs = IgnoreMask.from_tree(tree, allowed_rules_ref_map)\n            initial_linting_errors += ivs\n",
+        "QUIET", None, "None by default, overwritten under the gate (no else arm)",
+    ),
+    Variant(
+        "quiet-gate-reads-the-except-key-inline", LINTER,
+        "        if not config.get(\"disable_noqa\") or disable_noqa_except:\n            allowed_rules_ref_map = cls.allowed_rule_ref_map(\n                rule_pack.reference_map, disable_noqa_except\n            )\n",
+        "        if not config.get(\"disable_noqa\") or config.get(\"disable_noqa_except\"):\n            allowed_rules_ref_map = cls.allowed_rule_ref_map(\n                rule_pack.reference_map, config.get(\"disable_noqa_except\")\n            )\n",
+        "QUIET", None, "the config key read where it is used instead of through the local",
+    ),
+    Variant(
+        "quiet-gate-nested-ifs-in-cli-filter", CMDS,
+        "    if parsed_string.config.get(\"disable_noqa\") and not disable_noqa_except:\n        return [v for v in violations if not v.ignore and not v.warning]\n",
+        "    if parsed_string.config.get(\"disable_noqa\"):\n        if not disable_noqa_except:\n            return [v for v in violations if not v.ignore and not v.warning]\n",
+        "QUIET", None, "conjunction of the early return as nested ifs",
+    ),
+    Variant(
+        "quiet-cli-filter-config-through-a-local", CMDS,
+        "    disable_noqa_except: Optional[str] = parsed_string.config.get(\"disable_noqa_except\")\n    if parsed_string.config.get(\"disable_noqa\") and not disable_noqa_except:\n",
+        "    file_config = parsed_string.config\n    disable_noqa_except: Optional[str] = file_config.get(\"disable_noqa_except\")\n    noqa_disabled = file_config.get(\"disable_noqa\")\n    if noqa_disabled and not disable_noqa_except:\n",
+        "QUIET", None, "config object and the disable_noqa value through locals",
+    ),
+    Variant(
+        "quiet-fallback-gate-arms-swapped", LINTER,
+        "            if parsed.config.get(\"disable_noqa\") and not disable_noqa_except:\n                # NOTE: This path is only accessible if there is no valid `tree`\n                # which implies that there was a fatal templating fail. Even an\n                # unparsable file will still have a valid tree.\n                ignore_mask = None\n            else:\n                # Templating and/or parsing have failed. Look for \"noqa\"\n                # comments (the normal path for identifying these comments\n                # requires access to the parse tree, and because of the failure,\n                # we don't have a parse tree).\n                allowed_rules_ref_map = cls.allowed_rule_ref_map(\n                    rule_pack.reference_map, disable_noqa_except\n                )\n                ignore_mask, ignore_violations = IgnoreMask.from_source_with_dialect(\n                    parsed.source_str,\n                    parsed.config.get(\"dialect_obj\"),\n                    allowed_rules_ref_map,\n                )\n                violations += ignore_violations\n",
+        "            ignore_mask = None\n            if not parsed.config.get(\"disable_noqa\") or disable_noqa_except:\n                pack_map = rule_pack.reference_map\n                dialect_obj = parsed.config.get(\"dialect_obj\")\n                allowed_rules_ref_map = cls.allowed_rule_ref_map(\n                    reference_map=pack_map, disable_noqa_except=disable_noqa_except\n                )\n                ignore_mask, ignore_violations = IgnoreMask.from_source_with_dialect(\n                    source=parsed.source_str,\n                    dialect=dialect_obj,\n                    reference_map=allowed_rules_ref_map,\n                )\n                violations += ignore_violations\n",
+        "QUIET", None, "None by default, construction under the positive gate, keyword arguments, arguments through locals",
+    ),
+    Variant(
+        "quiet-lint-fix-parsed-result-kept-whole", LINTER,
+        "            (\n                fixed_tree,\n                initial_linting_errors,\n                ignore_mask,\n                rule_timings,\n            ) = cls.lint_fix_parsed(\n                root_variant.tree,\n                config=parsed.config,\n                rule_pack=rule_pack,\n                fix=fix,\n                fname=parsed.fname,\n                templated_file=root_variant.templated_file,\n                formatter=formatter,\n            )\n",
+        "            root_result = cls.lint_fix_parsed(\n                root_variant.tree,\n                config=parsed.config,\n                rule_pack=rule_pack,\n                fix=fix,\n                fname=parsed.fname,\n                templated_file=root_variant.templated_file,\n                formatter=formatter,\n            )\n            fixed_tree, initial_linting_errors = root_result[0], root_result[1]\n            ignore_mask = root_result[2]\n            rule_timings = root_result[3]\n",
+        "QUIET", None, "result tuple kept whole and indexed",
+    ),
+    Variant(
+        "quiet-linted-file-built-positionally", LINTER,
+        "            tree,\n            ignore_mask=ignore_mask,\n            templated_file=templated_file,\n            encoding=encoding,\n            source_patches=merged_source_patches,\n        )\n",
+        "            tree,\n            ignore_mask,\n            templated_file,\n            encoding,\n            merged_source_patches,\n        )\n",
+        "QUIET", None, "LintedFile fields given positionally",
+    ),
+    Variant(
+        "quiet-directive-position-kept-as-a-pair", NOQA,
+        "        comment_line, comment_pos = comment.pos_marker.source_position()\n        result = cls._parse_noqa(\n            comment_content, comment_line, comment_pos, reference_map\n        )\n",
+        "        marker = comment.pos_marker\n        where = marker.source_position()\n        result = cls._parse_noqa(comment_content, where[0], where[1], reference_map)\n",
+        "QUIET", None, "source position kept as a pair and indexed; the marker through a local",
+    ),
+    Variant(
+        "quiet-directive-position-by-keyword", NOQA,
+        "        result = cls._parse_noqa(\n            comment_content, comment_line, comment_pos, reference_map\n        )\n",
+        "        result = cls._parse_noqa(\n            comment_content, line_no=comment_line, line_pos=comment_pos, reference_map=reference_map\n        )\n",
+        "QUIET", None, "keyword arguments",
+    ),
+    Variant(
+        "quiet-from-source-lines-through-a-local", NOQA,
+        "        for idx, line in enumerate(source.split(\"\\n\")):\n            match = inline_comment_regex.search(line) if line else None\n            if match:\n                ignore_entry = cls._parse_noqa(\n                    line[match[0] : match[1]], idx + 1, match[0], reference_map\n                )\n",
+        "        lines = source.split(\"\\n\")\n        for line_no, line in enumerate(lines, start=1):\n            match = inline_comment_regex.search(line) if line else None\n            if match:\n                ignore_entry = cls._parse_noqa(\n                    line[match[0] : match[1]], line_no, match[0], reference_map\n                )\n",
+        "QUIET", None, "lines through a local; enumerate(start=1) instead of idx + 1",
+    ),
+    Variant(
+        "quiet-get-violations-mask-test-repeats-the-filter-test", LFILE,
+        "            # Ignore any rules in the ignore mask\n            if self.ignore_mask:\n                violations = self.ignore_mask.ignore_masked_violations(violations)\n",
+        "        # Ignore any rules in the ignore mask\n        if filter_ignore and self.ignore_mask:\n            violations = self.ignore_mask.ignore_masked_violations(violations)\n",
+        "QUIET", None, "nested if flattened into a second `if filter_ignore and ...`",
+    ),
+    Variant(
+        "quiet-get-violations-ignore-filter-as-a-loop", LFILE,
+        "            violations = [v for v in violations if not v.ignore]\n",
+        "            not_ignored = []\n            for v in violations:\n                if not v.ignore:\n                    not_ignored.append(v)\n            violations = not_ignored\n",
+        "QUIET", None, "a filter step of the running list as an append loop",
+    ),
+    Variant(
+        "quiet-mask-views-inlined-into-the-calls", NOQA,
+        "        ignore_specific = [ignore for ignore in self._ignore_list if not ignore.action]\n        ignore_range = [ignore for ignore in self._ignore_list if ignore.action]\n        violations = self._ignore_masked_violations_single_line(\n            violations, ignore_specific\n        )\n        violations = self._ignore_masked_violations_line_range(violations, ignore_range)\n        return violations\n",
+        "        directives = self._ignore_list\n        remaining = self._ignore_masked_violations_single_line(\n            violations, [d for d in directives if not d.action]\n        )\n        return self._ignore_masked_violations_line_range(\n            remaining, [d for d in directives if d.action]\n        )\n",
+        "QUIET", None, "views inlined, directive list through a local, no rebinding of the parameter",
+    ),
+    Variant(
+        "quiet-mask-views-built-by-one-loop", NOQA,
+        "        ignore_specific = [ignore for ignore in self._ignore_list if not ignore.action]\n        ignore_range = [ignore for ignore in self._ignore_list if ignore.action]\n",
+        "        ignore_specific: list[NoQaDirective] = []\n        ignore_range: list[NoQaDirective] = []\n        for ignore in self._ignore_list:\n            if ignore.action:\n                ignore_range.append(ignore)\n            else:\n                ignore_specific.append(ignore)\n",
+        "QUIET", None, "both views filled by one loop with if/else",
+    ),
+    Variant(
+        "quiet-matchers-called-with-keywords", NOQA,
+        "        violations = self._ignore_masked_violations_line_range(violations, ignore_range)\n",
+        "        violations = self._ignore_masked_violations_line_range(\n            violations=violations, ignore_mask=ignore_range\n        )\n",
+        "QUIET", None, "keyword arguments for the range matcher",
+    ),
+    Variant(
+        "quiet-unused-warnings-in-two-steps", NOQA,
+        "        return [\n            SQLUnusedNoQaWarning(\n                line_no=ignore.line_no,\n                line_pos=ignore.line_pos,\n                description=f\"Unused noqa: {ignore.raw_str!r}\",\n            )\n            for ignore in self._ignore_list\n            if not ignore.used\n        ]\n",
+        "        unused = [ignore for ignore in self._ignore_list if not ignore.used]\n        return [\n            SQLUnusedNoQaWarning(\n                line_no=ignore.line_no,\n                line_pos=ignore.line_pos,\n                description=f\"Unused noqa: {ignore.raw_str!r}\",\n            )\n            for ignore in unused\n        ]\n",
+        "QUIET", None, "filter first, build the warnings from the filtered list",
+    ),
+    Variant(
+        "quiet-single-line-match-test-by-length", NOQA,
+        "        if matched_violations:\n            # Successful match",
+        "        if len(matched_violations) > 0:\n            # Successful match",
+        "QUIET", None, "len(x) > 0 instead of truthiness of a list",
+    ),
+    Variant(
+        "quiet-single-line-matches-collected-by-a-loop", NOQA,
+        "        matched_violations = [\n            v\n            for v in violations\n            if (\n                v.line_no == self.line_no\n                and (self.rules is None or v.rule_code() in self.rules)\n            )\n        ]\n",
+        "        matched_violations = []\n        for v in violations:\n            if v.line_no != self.line_no:\n                continue\n            if self.rules is None or v.rule_code() in self.rules:\n                matched_violations.append(v)\n",
+        "QUIET", None, "comprehension as a loop with an early continue",
+    ),
+    Variant(
+        "quiet-range-decision-kept-as-a-pair", NOQA,
+        "            ignore, last_ignore = cls._should_ignore_violation_line_range(\n                v.line_no, ignore_rule\n            )\n            if not ignore:\n                result.append(v)\n            # If there was a previous ignore which mean that we filtered out\n            # a violation, then mark it as used.\n            elif last_ignore:\n                last_ignore.used = True\n",
+        "            verdict = cls._should_ignore_violation_line_range(\n                v.line_no, ignore_rule\n            )\n            if not verdict[0]:\n                result.append(v)\n            elif verdict[1]:\n                verdict[1].used = True\n",
+        "QUIET", None, "the (ignore, directive) pair kept whole and indexed",
+    ),
+    Variant(
+        "quiet-range-keep-as-early-continue", NOQA,
+        "            if not ignore:\n                result.append(v)\n            # If there was a previous ignore which mean that we filtered out\n            # a violation, then mark it as used.\n            elif last_ignore:\n                last_ignore.used = True\n",
+        "            if not ignore:\n                result.append(v)\n                continue\n            if last_ignore is None:\n                continue\n            last_ignore.used = True\n",
+        "QUIET", None, "if/elif as early continues; identity test for the named directive",
+    ),
+    Variant(
+        "quiet-range-violation-line-through-a-local", NOQA,
+        "            ignore, last_ignore = cls._should_ignore_violation_line_range(\n                v.line_no, ignore_rule\n            )\n",
+        "            violation_line = v.line_no\n            ignore, last_ignore = cls._should_ignore_violation_line_range(\n                line_no=violation_line, ignore_rules=ignore_rule\n            )\n",
+        "QUIET", None, "the violation's line through a local, keyword arguments",
+    ),
+    Variant(
+        "quiet-range-rule-code-hoisted", NOQA,
+        "            ignore_rule = sorted(\n                (\n                    ignore\n                    for ignore in ignore_mask\n                    if ignore.rules is None or (v.rule_code() in ignore.rules)\n                ),\n",
+        "            code = v.rule_code()\n            ignore_rule = sorted(\n                (\n                    ignore\n                    for ignore in ignore_mask\n                    if ignore.rules is None or (code in ignore.rules)\n                ),\n",
+        "QUIET", None, "rule_code() evaluated once per violation",
+    ),
+    Variant(
+        "quiet-parse-noqa-set-union-spelled-out", NOQA,
+        "                                expanded_rules |= expanded\n",
+        "                                expanded_rules = expanded_rules | expanded\n",
+        "QUIET", None, "s = s | x instead of s |= x",
+    ),
+    Variant(
+        "quiet-parse-noqa-raw-reference-after-continue", NOQA,
+        "                            if not matched:\n                                # We were unable to expand the glob.\n                                # Therefore assume the user is referencing\n                                # a special error type (e.g. PRS, LXR, or TMP)\n                                # and add this to the list of rules to ignore.\n                                expanded_rules.add(r)\n",
+        "                            if matched:\n                                continue\n                            expanded_rules.add(r)\n",
+        "QUIET", None, "`if not matched: add` as `if matched: continue` + add",
+    ),
+    Variant(
+        "quiet-parse-noqa-sorted-through-a-local", NOQA,
+        "                        rules = tuple(sorted(expanded_rules))\n",
+        "                        in_order = sorted(expanded_rules)\n                        rules = tuple(in_order)\n",
+        "QUIET", None, "sorted list through a local",
+    ),
+    Variant(
+        "quiet-parse-noqa-references-split-inline", NOQA,
+        "                        unexpanded_rules = tuple(\n                            r.strip() for r in rule_part.split(\",\")\n                        )\n                        # We use a set to do natural deduplication.\n                        expanded_rules: set[str] = set()\n                        for r in unexpanded_rules:\n",
+        "                        expanded_rules: set[str] = set()\n                        for r in [ref.strip() for ref in rule_part.split(\",\")]:\n",
+        "QUIET", None, "references split in the loop header; set created first",
+    ),
+    Variant(
+        "quiet-directive-built-with-keywords", NOQA,
+        "                    return NoQaDirective(line_no, line_pos, rules, action, comment)\n",
+        "                    return NoQaDirective(\n                        line_no=line_no, line_pos=line_pos, rules=rules, action=action, raw_str=comment\n                    )\n",
+        "QUIET", None, "keyword construction",
+    ),
+    Variant(
+        "quiet-special-codes-stored-with-update", LINTER,
+        "        for special_rule in [\"PRS\", \"LXR\", \"TMP\"]:\n            output_map[special_rule] = {special_rule}\n",
+        "        output_map.update({code: {code} for code in (\"PRS\", \"LXR\", \"TMP\")})\n",
+        "QUIET", None, "three subscript stores as one update()",
+    ),
+    Variant(
+        "quiet-special-codes-stored-with-in-place-union", LINTER,
+        "        for special_rule in [\"PRS\", \"LXR\", \"TMP\"]:\n            output_map[special_rule] = {special_rule}\n",
+        "        output_map |= {code: {code} for code in (\"PRS\", \"LXR\", \"TMP\")}\n",
+        "QUIET", None, "dict |= updates the aliased map in place",
+    ),
+    Variant(
+        "quiet-restricted-map-iterates-keys", LINTER,
+        "        return {k: v.intersection(noqa_set) for k, v in output_map.items()}\n",
+        "        restricted = {k: output_map[k].intersection(noqa_set) for k in output_map}\n        return restricted\n",
+        "QUIET", None, "iterating the keys, result through a local",
+    ),
+    Variant(
+        "quiet-cli-gate-through-a-negated-flag-local", CMDS,
+        "    if parsed_string.config.get(\"disable_noqa\") and not disable_noqa_except:\n        return [v",
+        "    read_noqa = not (parsed_string.config.get(\"disable_noqa\") and not disable_noqa_except)\n    if not read_noqa:\n        return [v",
+        "QUIET", None, "the early return tests the negation of a flag local",
+    ),
+    Variant(
+        "quiet-single-line-filtered-list-before-the-mark", NOQA,
+        "            self.used = True\n            return [v for v in violations if v not in matched_violations]\n",
+        "            remaining = [v for v in violations if v not in matched_violations]\n            self.used = True\n            return remaining\n",
+        "QUIET", None, "filtered list computed first, then the mark, then the return",
+    ),
+    Variant(
+        "quiet-parse-noqa-matches-counted", NOQA, "                            matched = False\n                            for expanded in (\n                                reference_map[x]\n                                for x in fnmatch.filter(reference_map.keys(), r)\n                            ):\n                                expanded_rules |= expanded\n                                matched = True\n\n                            if not matched:\n",
+        "                            n_matches = 0\n                            for expanded in (\n                                reference_map[x]\n                                for x in fnmatch.filter(reference_map.keys(), r)\n                            ):\n                                expanded_rules |= expanded\n                                n_matches += 1\n\n                            if n_matches == 0:\n",
+        "QUIET", None, "the match flag as a counter tested against zero",
+    ),
+    Variant(
+        "quiet-parse-noqa-matching-keys-tested-for-emptiness", NOQA, "                            matched = False\n                            for expanded in (\n                                reference_map[x]\n                                for x in fnmatch.filter(reference_map.keys(), r)\n                            ):\n                                expanded_rules |= expanded\n                                matched = True\n\n                            if not matched:\n",
+        "                            keys = fnmatch.filter(reference_map.keys(), r)\n                            for key in keys:\n                                expanded_rules |= reference_map[key]\n\n                            if not keys:\n",
+        "QUIET", None, "no flag: the list of matching keys is expanded by a loop and tested for emptiness",
+    ),
+    Variant(
+        "quiet-parse-noqa-matching-keys-if-else", NOQA, "                            matched = False\n                            for expanded in (\n                                reference_map[x]\n                                for x in fnmatch.filter(reference_map.keys(), r)\n                            ):\n                                expanded_rules |= expanded\n                                matched = True\n\n                            if not matched:\n                                # We were unable to expand the glob.\n                                # Therefore assume the user is referencing\n                                # a special error type (e.g. PRS, LXR, or TMP)\n                                # and add this to the list of rules to ignore.\n                                expanded_rules.add(r)\n",
+        "                            keys = fnmatch.filter(reference_map.keys(), r)\n                            if len(keys) > 0:\n                                for key in keys:\n                                    expanded_rules.update(reference_map[key])\n                            else:\n                                expanded_rules.add(r)\n",
+        "QUIET", None, "expansion loop on the non-empty arm, raw reference on the else arm",
+    ),
+    Variant(
+        "quiet-single-line-rules-through-a-local", NOQA, "        matched_violations = [\n            v\n            for v in violations\n            if (\n                v.line_no == self.line_no\n                and (self.rules is None or v.rule_code() in self.rules)\n            )\n        ]\n",
+        "        rules = self.rules\n        matched_violations = [\n            v\n            for v in violations\n            if v.line_no == self.line_no and (rules is None or v.rule_code() in rules)\n        ]\n",
+        "QUIET", None, "self.rules read once into a local",
+    ),
+    Variant(
+        "quiet-get-violations-type-filter-with-filter", LFILE,
+        "            violations = [v for v in violations if isinstance(v, types)]\n",
+        "            violations = list(filter(lambda v: isinstance(v, types), violations))\n",
+        "QUIET", None, "a filter step spelled list(filter(..))",
+    ),
+    # ---- breaking twins of the quiet spellings above ---------------------------------------------
+    Variant(
+        "parse-noqa-counter-bumped-without-an-expansion", NOQA, "                            matched = False\n                            for expanded in (\n                                reference_map[x]\n                                for x in fnmatch.filter(reference_map.keys(), r)\n                            ):\n                                expanded_rules |= expanded\n                                matched = True\n\n                            if not matched:\n",
+        "                            n_matches = 0\n                            for expanded in (\n                                reference_map[x]\n                                for x in fnmatch.filter(reference_map.keys(), r)\n                            ):\n                                expanded_rules |= expanded\n                            n_matches += 1\n\n                            if n_matches == 0:\n",
+        "R20d", "_parse_noqa", "twin of quiet-parse-noqa-matches-counted: the count is bumped for every reference, the raw reference is never kept",
+    ),
+    Variant(
+        "parse-noqa-matching-keys-only-first-expanded", NOQA, "                            matched = False\n                            for expanded in (\n                                reference_map[x]\n                                for x in fnmatch.filter(reference_map.keys(), r)\n                            ):\n                                expanded_rules |= expanded\n                                matched = True\n\n                            if not matched:\n",
+        "                            keys = fnmatch.filter(reference_map.keys(), r)\n                            for key in keys[:1]:\n                                expanded_rules |= reference_map[key]\n\n                            if not keys:\n",
+        "R20d", "_parse_noqa", "twin of quiet-parse-noqa-matching-keys-tested-for-emptiness: the loop walks a slice of the tested list",
+    ),
+    Variant(
+        "parse-noqa-matching-keys-expanded-only-for-globs", NOQA, "                            matched = False\n                            for expanded in (\n                                reference_map[x]\n                                for x in fnmatch.filter(reference_map.keys(), r)\n                            ):\n                                expanded_rules |= expanded\n                                matched = True\n\n                            if not matched:\n",
+        "                            keys = fnmatch.filter(reference_map.keys(), r)\n                            if \"*\" in r:\n                                for key in keys:\n                                    expanded_rules |= reference_map[key]\n\n                            if not keys:\n",
+        "R20d", "_parse_noqa", "twin: a plain reference that matched a key contributes neither its expansion nor itself",
+    ),
+    Variant(
+        "single-line-rules-local-tested-by-truthiness", NOQA, "        matched_violations = [\n            v\n            for v in violations\n            if (\n                v.line_no == self.line_no\n                and (self.rules is None or v.rule_code() in self.rules)\n            )\n        ]\n",
+        "        rules = self.rules\n        matched_violations = [\n            v\n            for v in violations\n            if v.line_no == self.line_no and (not rules or v.rule_code() in rules)\n        ]\n",
+        "R20e", "_filter_violations_single_line", "twin of quiet-single-line-rules-through-a-local",
+    ),
+    Variant(
+        "single-line-rules-local-matched-on-rule-object", NOQA, "        matched_violations = [\n            v\n            for v in violations\n            if (\n                v.line_no == self.line_no\n                and (self.rules is None or v.rule_code() in self.rules)\n            )\n        ]\n",
+        "        rules = self.rules\n        matched_violations = [\n            v\n            for v in violations\n            if v.line_no == self.line_no and (rules is None or getattr(v, \"rule\", None) in rules)\n        ]\n",
+        "R20d", "_filter_violations_single_line", "twin of quiet-single-line-rules-through-a-local",
+    ),
+    Variant(
+        "ignore-filter-loop-walks-a-capped-slice", LFILE,
+        "            violations = [v for v in violations if not v.ignore]\n",
+        "            not_ignored = []\n            for v in violations[:1000]:\n                if not v.ignore:\n                    not_ignored.append(v)\n            violations = not_ignored\n",
+        "R20c", "get_violations", "twin of quiet-get-violations-ignore-filter-as-a-loop: the loop walks a slice of the running list",
+    ),
+    Variant(
+        "range-matcher-fed-the-unfiltered-list-by-keyword", NOQA,
+        "        violations = self._ignore_masked_violations_single_line(\n            violations, ignore_specific\n        )\n        violations = self._ignore_masked_violations_line_range(violations, ignore_range)\n",
+        "        remaining = self._ignore_masked_violations_single_line(\n            violations, ignore_specific\n        )\n        violations = self._ignore_masked_violations_line_range(\n            violations=violations, ignore_mask=ignore_range\n        )\n",
+        "R20c", "ignore_masked_violations", "twin of quiet-matchers-called-with-keywords: the single-line result is dropped",
+    ),
+    Variant(
+        "unused-warnings-two-steps-first-step-narrower", NOQA,
+        "        return [\n            SQLUnusedNoQaWarning(\n                line_no=ignore.line_no,\n                line_pos=ignore.line_pos,\n                description=f\"Unused noqa: {ignore.raw_str!r}\",\n            )\n            for ignore in self._ignore_list\n            if not ignore.used\n        ]\n",
+        "        unused = [ignore for ignore in self._ignore_list if not ignore.used and not ignore.action]\n        return [\n            SQLUnusedNoQaWarning(\n                line_no=ignore.line_no,\n                line_pos=ignore.line_pos,\n                description=f\"Unused noqa: {ignore.raw_str!r}\",\n            )\n            for ignore in unused\n        ]\n",
+        "R20c", "generate_warnings_for_unused", "twin of quiet-unused-warnings-in-two-steps",
+    ),
+    Variant(
+        "single-line-marked-when-any-violation-exists", NOQA,
+        "        if matched_violations:\n            # Successful match",
+        "        if len(violations) > 0:\n            # Successful match",
+        "R20c", "_filter_violations_single_line", "twin of quiet-single-line-match-test-by-length: the length of the wrong list",
+    ),
+    Variant(
+        "single-line-matches-loop-without-a-filter", NOQA,
+        "        matched_violations = [\n            v\n            for v in violations\n            if (\n                v.line_no == self.line_no\n                and (self.rules is None or v.rule_code() in self.rules)\n            )\n        ]\n",
+        "        matched_violations = []\n        for v in violations:\n            if self.rules is None or v.rule_code() in self.rules:\n                pass\n            matched_violations.append(v)\n",
+        "R20c", "_filter_violations_single_line", "twin of quiet-single-line-matches-collected-by-a-loop: the append slipped out of the test",
+    ),
+    Variant(
+        "range-keep-decided-on-the-wrong-component", NOQA,
+        "            ignore, last_ignore = cls._should_ignore_violation_line_range(\n                v.line_no, ignore_rule\n            )\n            if not ignore:\n                result.append(v)\n            # If there was a previous ignore which mean that we filtered out\n            # a violation, then mark it as used.\n            elif last_ignore:\n                last_ignore.used = True\n",
+        "            verdict = cls._should_ignore_violation_line_range(\n                v.line_no, ignore_rule\n            )\n            if not verdict[1]:\n                result.append(v)\n            elif verdict[1]:\n                verdict[1].used = True\n",
+        "R20c", "_ignore_masked_violations_line_range", "twin of quiet-range-decision-kept-as-a-pair",
+    ),
+    Variant(
+        "range-decision-asked-for-the-column", NOQA,
+        "            ignore, last_ignore = cls._should_ignore_violation_line_range(\n                v.line_no, ignore_rule\n            )\n",
+        "            violation_line = v.line_pos\n            ignore, last_ignore = cls._should_ignore_violation_line_range(\n                line_no=violation_line, ignore_rules=ignore_rule\n            )\n",
+        "R20c", "_ignore_masked_violations_line_range", "twin of quiet-range-violation-line-through-a-local",
+    ),
+    Variant(
+        "range-hoisted-key-is-the-rule-object", NOQA,
+        "            ignore_rule = sorted(\n                (\n                    ignore\n                    for ignore in ignore_mask\n                    if ignore.rules is None or (v.rule_code() in ignore.rules)\n                ),\n",
+        "            code = getattr(v, \"rule\", None)\n            ignore_rule = sorted(\n                (\n                    ignore\n                    for ignore in ignore_mask\n                    if ignore.rules is None or (code in ignore.rules)\n                ),\n",
+        "R20d", "_ignore_masked_violations_line_range", "twin of quiet-range-rule-code-hoisted",
+    ),
+    Variant(
+        "parse-noqa-expansion-overwrites-the-set", NOQA,
+        "                                expanded_rules |= expanded\n",
+        "                                expanded_rules = expanded\n",
+        "R20d", "_parse_noqa", "twin of quiet-parse-noqa-set-union-spelled-out: only the last key's expansion survives",
+    ),
+    Variant(
+        "parse-noqa-expansion-intersects-the-set", NOQA,
+        "                                expanded_rules |= expanded\n",
+        "                                expanded_rules = expanded_rules & expanded\n",
+        "R20d", "_parse_noqa", "twin: s = s & x shrinks the set",
+    ),
+    Variant(
+        "parse-noqa-reference-skipped-by-continue", NOQA,
+        "                            matched = False\n                            for expanded in (\n",
+        "                            if r.startswith(\"!\"):\n                                continue\n                            matched = False\n                            for expanded in (\n",
+        "R20d", "_parse_noqa", "twin of quiet-parse-noqa-raw-reference-after-continue: a reference contributes nothing",
+    ),
+    Variant(
+        "parse-noqa-sorted-local-truncated", NOQA,
+        "                        rules = tuple(sorted(expanded_rules))\n",
+        "                        in_order = sorted(expanded_rules)[:10]\n                        rules = tuple(in_order)\n",
+        "R20d", "_parse_noqa", "twin of quiet-parse-noqa-sorted-through-a-local",
+    ),
+    Variant(
+        "special-codes-updated-into-a-copy-result-from-the-original", LINTER,
+        "        output_map = reference_map\n        # Add the special rules so they can be excluded for `disable_noqa_except` usage\n        for special_rule in [\"PRS\", \"LXR\", \"TMP\"]:\n            output_map[special_rule] = {special_rule}\n",
+        "        output_map = dict(reference_map)\n        output_map.update({code: {code} for code in (\"PRS\", \"LXR\", \"TMP\")})\n        output_map, reference_map = reference_map, output_map\n",
+        "R20f", "allowed_rule_ref_map", "twin of quiet-special-codes-stored-with-update",
+    ),
+    Variant(
+        "directive-line-pair-from-templated-position", NOQA,
+        "        comment_line, comment_pos = comment.pos_marker.source_position()\n        result = cls._parse_noqa(\n            comment_content, comment_line, comment_pos, reference_map\n        )\n",
+        "        marker = comment.pos_marker\n        where = marker.templated_position()\n        result = cls._parse_noqa(comment_content, where[0], where[1], reference_map)\n",
+        "R20b", "_extract_ignore_from_comment", "twin of quiet-directive-position-kept-as-a-pair",
+    ),
+    Variant(
+        "directive-line-pair-components-swapped", NOQA,
+        "        comment_line, comment_pos = comment.pos_marker.source_position()\n        result = cls._parse_noqa(\n            comment_content, comment_line, comment_pos, reference_map\n        )\n",
+        "        where = comment.pos_marker.source_position()\n        result = cls._parse_noqa(comment_content, where[1], where[0], reference_map)\n",
+        "R20b", "_extract_ignore_from_comment", "twin: column handed in as the line",
+    ),
+    Variant(
+        "from-source-lines-local-of-another-text", NOQA,
+        "        for idx, line in enumerate(source.split(\"\\n\")):\n",
+        "        lines = source.strip().split(\"\\n\")\n        for idx, line in enumerate(lines):\n",
+        "R20b", "from_source", "twin of quiet-from-source-lines-through-a-local: leading blank lines stripped, every directive line shifts",
+    ),
+    Variant(
+        "linted-file-mask-from-the-wrong-component", LINTER,
+        "            (\n                fixed_tree,\n                initial_linting_errors,\n                ignore_mask,\n                rule_timings,\n            ) = cls.lint_fix_parsed(\n                root_variant.tree,\n                config=parsed.config,\n                rule_pack=rule_pack,\n                fix=fix,\n                fname=parsed.fname,\n                templated_file=root_variant.templated_file,\n                formatter=formatter,\n            )\n",
+        "            root_result = cls.lint_fix_parsed(\n                root_variant.tree,\n                config=parsed.config,\n                rule_pack=rule_pack,\n                fix=fix,\n                fname=parsed.fname,\n                templated_file=root_variant.templated_file,\n                formatter=formatter,\n            )\n            fixed_tree, initial_linting_errors = root_result[0], root_result[1]\n            ignore_mask = root_result[3]\n            rule_timings = root_result[3]\n",
+        "R20a", "lint_parsed", "twin of quiet-lint-fix-parsed-result-kept-whole",
     ),
     # ---- breaking edits -------------------------------------------------------------------------
     Variant(
